@@ -284,6 +284,9 @@ def handle : Handler := fun op args impl =>
   | "c20dgamma", [alpha, ncat] => do
     let alpha ← bitsFloat? alpha
     let ncat ← ncat.toNat?
+    -- the harness asks three times: a later answer that differs from the first is reported as such
+    if impl.startsWith "again-differs" then
+      return ⟨"same-answer-every-time", "fail:same-arguments-different-rates"⟩
     let toks := implToks impl
     match parseOk toks with
     | some (r, "q" :: rest) =>
